@@ -273,7 +273,7 @@ impl C04 {
         let mut alphabet: Vec<String> = (32u8..127).map(|b| (b as char).to_string()).collect();
         alphabet.extend(EXTRA_CHARS.iter().map(|s| s.to_string()));
         let gen = crate::props::c11::GenPub::new(vec!["m", "2", "water", "now", "'q'", "0"], 2);
-        let gen_t = crate::props::c11::GenPub::new(vec!["m", "2", "ft"], 2);
+        let gen_t = crate::props::c11::GenPub::new(vec!["m", "2", "ft", "0"], 2);
         let soup_lens: Vec<u64> = if thorough { vec![1, 2, 3, 4] } else { vec![1, 2, 3] };
         let mut fams = Fams::default();
         let nt = (TOKENS.len() + TOKENS2.len()) as u64;
@@ -299,6 +299,7 @@ impl C04 {
         fams.add("unit-list shapes with ans", vec![LIST_SHAPES.len() as u64]);
         fams.add("numeral modes through the query path", vec![6, 5, 7, 4]);
         fams.add("conversion targets: `3 m -> T` for every small tree T", vec![gen_t.total()]);
+        fams.add("conversion targets of a bare number: `1 -> T` for every small tree T", vec![gen_t.total()]);
         let rink_bin = std::env::var("RINK_BIN").ok().filter(|p| std::path::Path::new(p).exists());
         // CLI pass over the first families (soups up to length 2-3, ladders, 1/2-char strings)
         let cli_batch = 400u64;
@@ -407,7 +408,7 @@ impl C04 {
             return Some(self.gen.text(d[0]));
         }
         if name.starts_with("conversion targets") {
-            return Some(format!("3 m -> {}", self.gen_t.text(d[0])));
+            return Some(format!("{} -> {}", if name.contains("bare number") { "1" } else { "3 m" }, self.gen_t.text(d[0])));
         }
         if name.starts_with("inputs known") {
             return Some(KNOWN_SLOW[d[0] as usize].to_string());
